@@ -229,6 +229,30 @@ theorem p2p_no_overflow (cfg : Cfg) (h : List Input) (henv : h.all envOk = true)
     · split <;> (intro e; cases e)
   | nothing => simp only [P2p.step, hd]; intro e; cases e
 
+/-- `TypeError` has one source: the eagerly formatted log message `"… %s:%s" % address` of the two start-up
+handlers, for a registered peer whose address tuple is longer than `(ip, port)` (an AF_INET6 peer); the
+acceptance was sent before it, the redirect is not sent -/
+theorem p2p_type_error (cfg : Cfg) (s : Store) (a : Addr) (data : Bytes) (f : Bool)
+    (he : (P2p.step cfg s (.datagram a data f)).2.2 = .err .typeError) :
+    a.isPair = false ∧ (dispatch data = .rdacRequest ∨ dispatch data = .dmrRequest) ∧
+    (P2p.step cfg s (.datagram a data f)).2.1.length = 1 := by
+  cases hd : dispatch data with
+  | registration =>
+    simp only [P2p.step, hd] at he
+    exact absurd he (handleRegistration_ne_typeError s a data f)
+  | rdacRequest =>
+    simp only [P2p.step, hd] at he ⊢
+    obtain ⟨h1, h2⟩ := handleRdacRequest_typeError cfg s a data he
+    exact ⟨h1, Or.inl trivial, h2⟩
+  | dmrRequest =>
+    simp only [P2p.step, hd] at he ⊢
+    obtain ⟨h1, h2⟩ := handleDmrRequest_typeError cfg s a data he
+    exact ⟨h1, Or.inr trivial, h2⟩
+  | ping =>
+    simp only [P2p.step, hd] at he
+    exact absurd he (handlePing_ne_typeError s a data)
+  | nothing => simp [P2p.step, hd] at he
+
 /-- the packet types the dispatch knows are the three constants of the class -/
 theorem p2p_known_types :
     Gen.Proto.p2pKnownTypes = [Gen.Proto.p2pTypeDmrStartup, Gen.Proto.p2pTypeRdacStartup, Gen.Proto.p2pTypeRegistration] ∧
@@ -349,6 +373,26 @@ abbrev stepAt (s : RState) (ip : List Nat) : Nat := stepOf s.steps ip
 theorem rdac_isolation (h : List RInput) (i : RInput) (ip : List Nat) (hne : i.address.ip ≠ ip) :
     stepAt (Rdac.step (Rdac.run h).1 i.address i.data i.snmpFails).1 ip = stepAt (Rdac.run h).1 ip :=
   step_stepOf_other _ _ _ _ ip hne
+
+theorem rdac_runFrom_append (s : RState) (h1 h2 : List RInput) :
+    (Rdac.runFrom s (h1 ++ h2)).1 = (Rdac.runFrom (Rdac.runFrom s h1).1 h2).1 := by
+  induction h1 generalizing s with
+  | nil => rfl
+  | cons i t ih => simp only [List.cons_append, Rdac.runFrom, ih]
+
+/-- **rdac_step_survives (scale).** However many datagrams from however many other IPs reach the handler
+(`h2`: any length, any number of distinct peers — there is no bound on the step table), the step of `ip`
+is what it was: an unfinished run is not set back, a finished peer (step 14) stays finished. -/
+theorem rdac_step_survives (h h2 : List RInput) (ip : List Nat) (hne : ∀ i ∈ h2, i.address.ip ≠ ip) :
+    stepAt (Rdac.run (h ++ h2)).1 ip = stepAt (Rdac.run h).1 ip := by
+  simp only [Rdac.run, rdac_runFrom_append]
+  generalize (Rdac.runFrom Rdac.init h).1 = s
+  induction h2 generalizing s with
+  | nil => rfl
+  | cons i t ih =>
+    simp only [Rdac.runFrom]
+    rw [ih (fun j hj => hne j (List.mem_cons_of_mem _ hj))]
+    exact step_stepOf_other s i.address i.data i.snmpFails ip (hne i List.mem_cons_self)
 
 /-- **rdac_expected_only.** The step of the sending IP changes only in three ways: a one-octet datagram
 restarts it (to 1, re-sending the step-0 request) unless it is 14; the first datagram of an IP (step
@@ -797,5 +841,36 @@ example :
       [([], .ok), ([(.reject, P1.val)], .ok)]) ∧
     [Input.envPatch P1 (.dyn "p2p_is_registere") (.int 1), .setOut P1 (.addr [49] 4000)].all envOk = true ∧
     envOk (.envPatch P1 (.dyn Gen.Proto.p2pIsRegisteredKey) (.int 1)) = false := by decide
+
+/-! ### peers are whole address tuples (AF_INET6: `(host, port, flowinfo, scope_id)`) -/
+
+private def Q1 : Addr := { ip := [102], port := 50000, ext := [0, 0] }
+private def Q2 : Addr := { ip := [102], port := 50000, ext := [0, 3] }   -- the same host and port, another scope id
+private def Q0 : Addr := { ip := [102], port := 50000 }                  -- … and the 2-tuple
+private def ping : Bytes := [0, 0, 0, 0, 0x0A, 0, 0, 0, 0x14] ++ List.replicate 7 0
+
+/-- `Q1` registers; pings / start-up requests of `Q2` and `Q0` (equal host and port) are rejected, the ping of `Q1`
+is answered to the 4-tuple; a DMR start-up of `Q1` is accepted towards `(ip, p2p_port)` and then raises `TypeError`
+(the log line), without the redirect; three records -/
+example :
+    (P2p.run Cfg.default [.datagram Q1 (cmd 0x10) false, .datagram Q2 ping false, .datagram Q0 (cmd 0x12) false,
+      .datagram Q1 ping false, .datagram Q1 (cmd 0x11) false, .datagram Q2 (cmd 0x10) true, .datagram Q2 ping false]).2.map
+        (fun r => (r.1.map (fun o => (o.kind, o.dest)), r.2)) =
+      [([(.registrationAnswer, .addr [] 0)], .ok),
+       ([(.reject, .tupN [102] [50000, 0, 3])], .ok),
+       ([(.reject, .addr [102] 50000)], .ok),
+       ([(.pingAnswer, .tupN [102] [50000, 0, 0])], .ok),
+       ([(.dmrAccept, .addr [102] 50000)], .err .typeError),
+       ([(.registrationAnswer, .addr [] 0)], .err .snmpError),
+       ([(.reject, Q2.val)], .ok)] ∧
+    registeredIn [.datagram Q1 (cmd 0x10) false] Q2 = false ∧ registeredIn [.datagram Q1 (cmd 0x10) false] Q1 = true ∧
+    (P2p.run Cfg.default [.datagram Q1 (cmd 0x10) false, .datagram Q2 ping false, .datagram Q0 ping false]).1.len = 1 := by
+  decide
+
+/-- RDAC with AF_INET6 peers: the step is per host (as for `(ip, port)` peers), the storage records per whole tuple -/
+example :
+    (Rdac.run [⟨Q1, [0x55, 0x55], false⟩, ⟨Q2, [0x7E, 4, 0, 0xFD], false⟩, ⟨Q0, [0x7E, 4, 0, 0x10], false⟩]).1.steps = [([102], 3)] ∧
+    (Rdac.run [⟨Q1, [0x55, 0x55], false⟩, ⟨Q2, [0x7E, 4, 0, 0xFD], false⟩, ⟨Q0, [0x7E, 4, 0, 0x10], false⟩]).1.store.len = 3 := by
+  decide
 
 end Dmr.C18
